@@ -32,7 +32,10 @@ func c10r910(p *model.Prog, r *report.Result) {
 	}
 	writes := model.CallsTo(fn, wObj)
 	miss := model.PathQuery{
-		Stop:     func(in ssa.Instruction) bool { c, ok := in.(ssa.CallInstruction); return ok && model.SameFunc(model.CalleeObj(c.Common()), wObj) },
+		Stop: func(in ssa.Instruction) bool {
+			c, ok := in.(ssa.CallInstruction)
+			return ok && model.SameFunc(model.CalleeObj(c.Common()), wObj)
+		},
 		StopEdge: isErrEdge,
 		Target:   func(in ssa.Instruction) bool { _, ok := in.(*ssa.Return); return ok },
 	}.Find(fn)
